@@ -2,10 +2,12 @@ package main
 
 import (
 	"bytes"
+	"crypto/sha256"
 	"encoding/csv"
 	"encoding/json"
 	"fmt"
 	"os"
+	"os/exec"
 	"path/filepath"
 	"regexp"
 	"sort"
@@ -236,9 +238,17 @@ type c13Case struct {
 	PrintInput string
 	Read       c13Out
 	Journal    string // the part of stdout that is meant to be the journal
+	// stream big
+	Timeout   time.Duration // watchdog of one knut run (0: 30 s)
+	KeepModel bool          // keep the model's answer to c13-run in Model
+	Model     string
+	Compact   map[string]any // the input as recorded in findings (nil: the full statement, see input())
 }
 
 func (pc *c13Case) input() map[string]any {
+	if pc.Compact != nil {
+		return pc.Compact
+	}
 	return map[string]any{"importer": pc.St.Imp, "args": strings.Join(pc.St.Args, " "), "arg_list": pc.St.Args, "flag_list": pc.St.Flags,
 		"statement": string(pc.St.File), "statement_hex": Hex(string(pc.St.File)), "mutation": pc.Mut}
 }
@@ -260,7 +270,11 @@ func c13Run(c *Ctx, dir string, pc *c13Case) {
 	defer os.Remove(path)
 	args := append([]string{"import", pc.St.Imp}, pc.St.Args...)
 	args = append(args, path)
-	pc.Code, pc.Out, pc.Err = runKnut(c.KnutBin, 30*time.Second, nil, args...)
+	timeout := 30 * time.Second
+	if pc.Timeout > 0 {
+		timeout = pc.Timeout
+	}
+	pc.Code, pc.Out, pc.Err = runKnut(c.KnutBin, timeout, nil, args...)
 	if pc.Code != 0 {
 		return
 	}
@@ -282,7 +296,7 @@ func c13Run(c *Ctx, dir string, pc *c13Case) {
 	jpath := filepath.Join(dir, fmt.Sprintf("%s-%d.knut", pc.Stream, pc.Idx))
 	os.WriteFile(jpath, []byte(pc.PrintInput), 0o644)
 	defer os.Remove(jpath)
-	pc.PrintCode, pc.PrintOut, pc.PrintErr = runKnut(c.KnutBin, 30*time.Second, nil, "print", jpath)
+	pc.PrintCode, pc.PrintOut, pc.PrintErr = runKnut(c.KnutBin, timeout, nil, "print", jpath)
 }
 
 const (
@@ -354,7 +368,7 @@ func c13Evaluate(c *Ctx, bt *Batch, pc *c13Case) {
 	if pc.Idx < 1 && pc.Stream == "stmt" {
 		c.Sample(map[string]any{"importer": st.Imp, "args": strings.Join(st.Args, " "), "statement": clip(string(st.File)), "output": clip(pc.Out)})
 	}
-	wellFormed := pc.Stream == "stmt" || pc.Stream == "flags"
+	wellFormed := pc.Stream == "stmt" || pc.Stream == "flags" || pc.Stream == "big"
 
 	// ---- correspondence: real importer vs Lean row model + journal printer, byte for byte
 	recs, syntaxErr := c13Decode(st.Imp, st.File)
@@ -369,6 +383,9 @@ func c13Evaluate(c *Ctx, bt *Batch, pc *c13Case) {
 			}
 			if syntaxErr && model != "panic" {
 				model = "error" // the decoder fails after the rows the model has seen
+			}
+			if pc.KeepModel {
+				pc.Model = model
 			}
 			if !c.Compare(pc.Stream, pc.Idx, "import:"+st.Imp, in, impl, model) {
 				if pc.Stream != "directed" && len(c13Suspects) < 12 {
@@ -430,30 +447,62 @@ func c13Evaluate(c *Ctx, bt *Batch, pc *c13Case) {
 				return
 			}
 			c13Monitor(c, pc, pc.Stream, pc.Idx, "faithful_to_spec_reader", in, a == "ok", "the output is not, one for one, the items the specification reads from the statement ("+a+"):\n"+pc.Journal)
-		}, "c13-spec", Hex(st.Imp), flags, recWire, pc.Read.Wire)
+		}, "c13-spec"+c13BigOp(pc), Hex(st.Imp), flags, recWire, pc.Read.Wire)
 	}
 	if !wellFormed {
 		return
 	}
-	// (b) against the generator's own reading of the statement
+	// (b) against the generator's own reading of the statement, (c) the literal reading of the property where the importer
+	// nets, pairs or rounds by design
+	c13FidelityMonitors(c, bt, pc, in, pc.Read, pc.Journal, "")
+	acct := st.Flags[0]
+	if st.Strict != nil {
+		bt.Add(func(a string) {
+			if a != "ok" {
+				c13Known(c, pc.Stream, pc.Idx, "faithful_to_statement_unrounded", in, "amounts differ from the statement's unrounded amounts\nexpected items: "+c13ItemsWire(st.Strict)+"\noutput:\n"+pc.Journal, c13KnownIBRounding)
+			} else {
+				c.Monitored++
+			}
+		}, "c13-faithful"+c13BigOp(pc), Hex(acct), c13ItemsWire(st.Strict), pc.Read.Wire)
+	}
+}
+
+// c13BigOp: the statements of the stream big have tens of thousands of rows; the driver evaluates faithfulB for them with the
+// items taken in the order of their days first (Driver/C13.lean, faithfulBig: same verdict, not quadratic).
+func c13BigOp(pc *c13Case) string {
+	if pc.Stream == "big" {
+		return "-big"
+	}
+	return ""
+}
+
+// c13FidelityMonitors: the fidelity clauses of the property against the generator's own reading of the statement, evaluated on
+// `journal` as read into `read` (the importer's standard output as one consumer received it; `suffix` names the consumer in the
+// predicate, "" for the eagerly read output): faithful_to_statement (Lean faithfulB with the generator's items) and
+// one_transaction_per_row.
+func c13FidelityMonitors(c *Ctx, bt *Batch, pc *c13Case, in map[string]any, read c13Out, journal string, suffix string) {
+	st := pc.St
+	shown := journal
+	if len(shown) > 20000 {
+		shown = clip(shown)
+	}
 	acct := st.Flags[0]
 	{
-		detail := "the output is not, one for one, the rows/balances/prices of the statement\nexpected items: " + c13ItemsWire(st.Items) + "\noutput:\n" + pc.Journal
-		alt, altKey, readWire := st.Alt, st.AltKey, pc.Read.Wire
+		detail := "the output is not, one for one, the rows/balances/prices of the statement\nexpected items: " + clip(c13ItemsWire(st.Items)) + "\noutput:\n" + shown
+		alt, altKey, readWire := st.Alt, st.AltKey, read.Wire
 		bt.Add(func(a string) {
 			if a == "ok" || alt == nil {
-				c13Monitor(c, pc, pc.Stream, pc.Idx, "faithful_to_statement", in, a == "ok", detail)
+				c13Monitor(c, pc, pc.Stream, pc.Idx, "faithful_to_statement"+suffix, in, a == "ok", detail)
 				return
 			}
 			// is the failure the recorded one (the output is exactly what the finding predicts)?
-			if c.Drv.Ask("c13-faithful", Hex(acct), c13ItemsWire(alt), readWire) == "ok" {
-				c13Known(c, pc.Stream, pc.Idx, "faithful_to_statement", in, detail, altKey)
+			if c.Drv.Ask("c13-faithful"+c13BigOp(pc), Hex(acct), c13ItemsWire(alt), readWire) == "ok" {
+				c13Known(c, pc.Stream, pc.Idx, "faithful_to_statement"+suffix, in, detail, altKey)
 			} else {
-				c13Monitor(c, pc, pc.Stream, pc.Idx, "faithful_to_statement", in, false, detail)
+				c13Monitor(c, pc, pc.Stream, pc.Idx, "faithful_to_statement"+suffix, in, false, detail)
 			}
-		}, "c13-faithful", Hex(acct), c13ItemsWire(st.Items), pc.Read.Wire)
+		}, "c13-faithful"+c13BigOp(pc), Hex(acct), c13ItemsWire(st.Items), read.Wire)
 	}
-	// (c) the literal reading of the property where the importer nets, pairs or rounds by design
 	bookings := 0
 	for _, it := range st.Items {
 		if it.Kind == 'b' {
@@ -466,19 +515,10 @@ func c13Evaluate(c *Ctx, bt *Batch, pc *c13Case) {
 			key = c13KnownForexPair
 		}
 		if st.Imp == "com.wise" || st.Imp == "ch.swissquote" {
-			c13Known(c, pc.Stream, pc.Idx, "one_transaction_per_row", in, fmt.Sprintf("%d transactions for %d statement rows:\n%s", pc.Read.NTx, st.Rows, pc.Journal), key)
+			c13Known(c, pc.Stream, pc.Idx, "one_transaction_per_row"+suffix, in, fmt.Sprintf("%d transactions for %d statement rows:\n%s", read.NTx, st.Rows, shown), key)
 		}
 	} else {
-		c13Monitor(c, pc, pc.Stream, pc.Idx, "one_transaction_per_row", in, pc.Read.NTx == bookings, fmt.Sprintf("%d transactions for %d booking rows:\n%s", pc.Read.NTx, bookings, pc.Journal))
-	}
-	if st.Strict != nil {
-		bt.Add(func(a string) {
-			if a != "ok" {
-				c13Known(c, pc.Stream, pc.Idx, "faithful_to_statement_unrounded", in, "amounts differ from the statement's unrounded amounts\nexpected items: "+c13ItemsWire(st.Strict)+"\noutput:\n"+pc.Journal, c13KnownIBRounding)
-			} else {
-				c.Monitored++
-			}
-		}, "c13-faithful", Hex(acct), c13ItemsWire(st.Strict), pc.Read.Wire)
+		c13Monitor(c, pc, pc.Stream, pc.Idx, "one_transaction_per_row"+suffix, in, read.NTx == bookings, fmt.Sprintf("%d transactions for %d booking rows:\n%s", read.NTx, bookings, shown))
 	}
 }
 
@@ -646,6 +686,10 @@ func runC13(c *Ctx) {
 	if !c.Replay || c.OnlyStr == "multi" {
 		c13Multi(c, dir)
 	}
+	// long statements whose output is read by paced consumers
+	if !c.Replay || c.OnlyStr == "big" {
+		runC13Big(c, dir)
+	}
 	// directed search around disagreements: every row of a disagreeing statement alone
 	if len(c13Suspects) > 0 && !c.Replay {
 		directed := c13Directed(c13Suspects)
@@ -655,6 +699,294 @@ func runC13(c *Ctx) {
 	c.Notes = append(c.Notes,
 		"row models and Faithful theorems exist for all eleven importers; the text-level validity clause (printed text parses and re-prints unchanged) is decided by the monitors output_parses, output_parses_lean_parser, output_accepted, output_reprinted_unchanged on the REAL output",
 		"known by-design deviations are reported as KNOWN-FINDING lines: wise books a conversion row as two transactions, swissquote books a forex pair (two rows) as one, interactivebrokers rounds to cents; the three repaired findings (postfinance debug line, quote replaced after sorting, swissquote sale without proceeds) are ordinary violations if they return")
+}
+
+// ---------------------------------------------------------------- stream big: long statements, paced consumers of stdout
+//
+// The property speaks about the text the importer EMITS, for every well-formed statement: also for the export of several
+// years of a busy account, and whoever reads the importer's standard output (`knut import … > file`, `| less`, `| ssh`, a
+// script that reads line by line). The other streams read stdout eagerly and stay below 60 rows, i.e. below every buffer
+// between journal.Print and the consumer. Here a statement has hundreds to tens of thousands of rows (output from about
+// 100 KiB to several MiB: many times bufio's 4 KiB, the pipe's 64 KiB, and any block or ring a writer may keep) and the same
+// import runs once with an eager reader - with the stmt stream's oracle, model comparison and all its monitors - and then
+// through consumers that start late, stall at an offset, read slowly, in tiny pieces or in bursts, through pipes of 4 KiB to
+// 1 MiB capacity, or into a regular file (the consumers of C17's stream paced). What a consumer receives must be, byte for
+// byte, what the eager reader received and what the model prints, and the property's clauses are evaluated on the bytes of
+// every consumer: output_parses, one_transaction_per_row, faithful_to_statement.
+
+// the importers in the order in which the indices take them (the first ones differ most in shape)
+var c13BigOrder = []string{"ch.swisscard2", "revolut2", "ch.swissquote", "ch.postfinance", "com.wise", "ch.supercard", "us.interactivebrokers", "ch.cumulus",
+	"revolut", "ch.swisscard", "ch.viac"}
+
+var c13BigKinds = []string{"late", "stall", "slow", "tiny", "burst", "late", "stall", "file"}
+
+type c13BigRun struct {
+	pace     c17pace
+	code     int
+	out, err string
+	timeout  bool
+}
+
+type c13BigCase struct {
+	pc   *c13Case
+	rows int
+	runs []*c13BigRun
+	path string
+}
+
+func c13SizeClass(n int) string {
+	switch {
+	case n <= 65536:
+		return "<=64K"
+	case n <= 262144:
+		return "64-256K"
+	case n <= 1<<20:
+		return "256K-1M"
+	case n <= 17*65536:
+		return "1M-17x64K"
+	case n <= 2<<20:
+		return "-2M"
+	case n <= 4<<20:
+		return "2-4M"
+	}
+	return ">4M"
+}
+
+// bytes of output per statement row, roughly (ch.viac: per price line); only used to turn a size into a row count
+var c13BigBytesPerRow = map[string]int{"ch.swisscard2": 147, "revolut2": 129, "ch.swissquote": 206, "ch.postfinance": 123, "com.wise": 175, "ch.supercard": 85,
+	"us.interactivebrokers": 204, "ch.cumulus": 103, "revolut": 187, "ch.swisscard": 149, "ch.viac": 34}
+
+// the models of these two importers append every row's transaction to the end of a list (as the Go code appends to a slice),
+// which makes the model run quadratic in the rows: 14000 rows (1.4 / 2.6 MiB of output) take it a few seconds
+var c13BigRowCap = map[string]int{"ch.cumulus": 14000, "revolut": 14000}
+
+// c13BigRows draws the size of the output - a few buffers' worth, up to a MiB, or (five indices in eight) well beyond, where a
+// MiB is also the largest pipe and any plausible ring of blocks - and returns the row count that gives about that size.
+func c13BigRows(c *Ctx, r *RNG, idx int, imp string) int {
+	var size int
+	switch []byte("LLMLSLML")[idx%8] {
+	case 'S':
+		size = r.Range(100<<10, 300<<10)
+	case 'M':
+		size = r.Range(300<<10, 1100<<10)
+	default:
+		size = r.Range(1200<<10, c.N(2400<<10, 6<<20))
+	}
+	rows := size / c13BigBytesPerRow[imp]
+	if m := c13BigRowCap[imp]; m > 0 && rows > m {
+		rows = m
+	}
+	return rows
+}
+
+func c13BigStatement(c *Ctx, idx int) *c13BigCase {
+	r := c.Rng("big", idx)
+	imp := c13BigOrder[idx%len(c13BigOrder)]
+	rows := c13BigRows(c, r, idx, imp)
+	c13ForceRows = rows
+	st := c13Gen(r, imp)
+	c13ForceRows = 0
+	pc := &c13Case{Stream: "big", Idx: idx, St: st, Timeout: 120 * time.Second, KeepModel: true}
+	return &c13BigCase{pc: pc, rows: rows}
+}
+
+var c13BigFull int // findings of the stream that carry the whole statement (the others: digest and head; all replay from seed and index)
+
+func (bc *c13BigCase) input(p *c17pace) map[string]any {
+	st := bc.pc.St
+	m := map[string]any{"importer": st.Imp, "args": strings.Join(st.Args, " "), "arg_list": st.Args, "flag_list": st.Flags, "rows": bc.rows,
+		"statement_bytes": len(st.File), "statement_head": clip(string(st.File)),
+		"note": "the statement is a function of (seed, stream big, index): bin/check --replay regenerates it"}
+	if p != nil {
+		m["consumer_of_stdout"] = *p
+	}
+	return m
+}
+
+// runC13Big runs the stream; cases are taken a few at a time (each holds several copies of an output of several MiB).
+func runC13Big(c *Ctx, dir string) {
+	n := c.N(5, 33)
+	npace := c.N(3, 4)
+	const watchdog = 120 * time.Second
+	var idxs []int
+	for i := 0; i < n; i++ {
+		if c.Want("big", i) {
+			idxs = append(idxs, i)
+		}
+	}
+	if len(idxs) == 0 {
+		return
+	}
+	t0 := time.Now()
+	var tEager, tPaced, tEval time.Duration
+	nruns, differing, blocked, maxOut := 0, 0, 0, 0
+	var sizes []string
+	const chunk = 6
+	for lo := 0; lo < len(idxs); lo += chunk {
+		hi := lo + chunk
+		if hi > len(idxs) {
+			hi = len(idxs)
+		}
+		var cases []*c13BigCase
+		for _, i := range idxs[lo:hi] {
+			cases = append(cases, c13BigStatement(c, i))
+		}
+		// phase 1: the eager run (and `knut print` on opens + output)
+		t1 := time.Now()
+		parallelFor(len(cases), 6, func(k int) { c13Run(c, dir, cases[k].pc) })
+		tEager += time.Since(t1)
+		// phase 2: the consumers
+		type job struct {
+			bc  *c13BigCase
+			run *c13BigRun
+		}
+		var jobs []job
+		for _, bc := range cases {
+			pc := bc.pc
+			if pc.Code != 0 {
+				continue
+			}
+			r := c.Rng("big-pace", pc.Idx)
+			start := r.Intn(len(c13BigKinds))
+			for j := 0; j < npace; j++ {
+				p := genC17Pace(r, c13BigKinds[(start+j)%len(c13BigKinds)], len(pc.Out), c.N(1200, 2600))
+				if p.Kind == "stall" && r.Chance(1, 2) {
+					// just around the multiples of 64 KiB and of 1 MiB
+					p.StallAt = Pick(r, []int{1, 2, 3, 15, 16, 17, 31, 32, 33})*65536 + r.Range(-2, 2)
+				}
+				bc.runs = append(bc.runs, &c13BigRun{pace: p})
+			}
+			bc.path = filepath.Join(dir, fmt.Sprintf("big-%d.stmt", pc.Idx))
+			os.WriteFile(bc.path, pc.St.File, 0o644)
+			for _, run := range bc.runs {
+				jobs = append(jobs, job{bc, run})
+			}
+		}
+		t2 := time.Now()
+		parallelFor(len(jobs), 6, func(k int) {
+			jb := jobs[k]
+			st := jb.bc.pc.St
+			args := append(append([]string{"import", st.Imp}, st.Args...), jb.bc.path)
+			out, stderr, err := c17RunPaced(c.KnutBin, watchdog, jb.run.pace, fmt.Sprintf("%s.out%d", jb.bc.path, k), args...)
+			jb.run.out, jb.run.err = out, stderr
+			if err != nil {
+				jb.run.code = -1
+				if ee, ok := err.(*exec.ExitError); ok {
+					jb.run.code = ee.ExitCode()
+				}
+				jb.run.timeout = err.Error() == "timeout"
+			}
+		})
+		tPaced += time.Since(t2)
+		// phase 3: verdicts
+		t3 := time.Now()
+		for _, bc := range cases {
+			if bc.path != "" {
+				os.Remove(bc.path)
+			}
+			pc := bc.pc
+			st := pc.St
+			pc.Compact = bc.input(nil)
+			if c13BigFull < 2 {
+				pc.Compact["statement"] = string(st.File) // ISO 8859-1 statements: shown as far as JSON carries them
+			}
+			failedBefore := c.FindingCount["monitor"]
+			bt := c.NewBatch()
+			c13Evaluate(c, bt, pc)
+			bt.Flush()
+			eagerClean := c.FindingCount["monitor"] == failedBefore
+			if !eagerClean {
+				c13BigFull++
+			}
+			if len(pc.Out) > maxOut {
+				maxOut = len(pc.Out)
+			}
+			c.Class(fmt.Sprintf("big/%s/out%s", st.Imp, c13SizeClass(len(pc.Out))))
+			if len(sizes) < 80 {
+				sizes = append(sizes, fmt.Sprintf("%d %s: %d rows, statement %d bytes, output %d bytes", pc.Idx, st.Imp, bc.rows, len(st.File), len(pc.Out)))
+			}
+			if pc.Idx < 1 {
+				c.Sample(map[string]any{"stream": "big", "importer": st.Imp, "rows": bc.rows, "statement_bytes": len(st.File), "output_bytes": len(pc.Out), "consumers": len(bc.runs)})
+			}
+			eagerImpl := c13Outcome(pc.Code, pc.Out, pc.Err)
+			for _, run := range bc.runs {
+				run := run
+				nruns++
+				p := run.pace
+				in := bc.input(&p)
+				if run.timeout {
+					c.Tag("big:consumer-timeout")
+					c.Notes = append(c.Notes, fmt.Sprintf("big %d: watchdog expired for consumer %+v (not evaluated)", pc.Idx, p))
+					continue
+				}
+				capacity := p.Pipe
+				if capacity == 0 {
+					capacity = 65536
+				}
+				if p.Kind != "file" && len(pc.Out) > capacity+4096 && (p.Stall >= 100 || p.Pause >= 100) {
+					blocked++
+				}
+				c.Class(fmt.Sprintf("big-consumer/%s/pipe%d/out%s", p.Kind, p.Pipe, c13SizeClass(len(pc.Out))))
+				impl := c13Outcome(run.code, run.out, run.err)
+				// correspondence: the consumer's bytes are the eager reader's bytes and the model's text
+				c.Compare("big", pc.Idx, "import:"+st.Imp+" (paced consumer = eager reader)", in, clipOutcome(impl), clipOutcome(eagerImpl))
+				if pc.Model != "" && pc.Model != "unsupported" {
+					if !c.Compare("big", pc.Idx, "import:"+st.Imp+" (paced consumer)", in, clipOutcome(impl), clipOutcome(pc.Model)) {
+						f := &c.Findings[len(c.Findings)-1]
+						if strings.HasPrefix(pc.Model, "ok ") && strings.HasPrefix(impl, "ok ") {
+							f.Impl = c17FirstDiff(UnHex(strings.TrimPrefix(pc.Model, "ok ")), run.out)
+						}
+					}
+				}
+				// monitors on the consumer's bytes
+				if !c13Monitor(c, pc, "big", pc.Idx, "wellformed_statement_imports (paced consumer)", in, run.code == 0, fmt.Sprintf("exit %d\n%s", run.code, clip(run.err))) {
+					continue
+				}
+				if run.out == pc.Out {
+					// the bytes the clauses were evaluated on above
+					if eagerClean {
+						c.Monitor("big", pc.Idx, "output_parses (paced consumer)", nil, true, "")
+						c.Monitor("big", pc.Idx, "faithful_to_statement (paced consumer)", nil, true, "")
+						if st.OneTx {
+							c.Monitor("big", pc.Idx, "one_transaction_per_row (paced consumer)", nil, true, "")
+						}
+					}
+					continue
+				}
+				differing++
+				if c13BigFull < 2 {
+					in["statement"] = string(st.File)
+					c13BigFull++
+				}
+				rd := c13ReadOutput(run.out)
+				if !c13Monitor(c, pc, "big", pc.Idx, "output_parses (paced consumer)", in, rd.OK,
+					"the importer's output as this consumer received it is rejected by knut's parser: "+rd.Err+"\n"+c17FirstDiff(pc.Out, run.out)) {
+					continue
+				}
+				c13FidelityMonitors(c, bt, pc, in, rd, c17FirstDiff(pc.Out, run.out), " (paced consumer)")
+			}
+			bt.Flush()
+			pc.Out, pc.PrintOut, pc.PrintInput, pc.Journal, pc.Model, st.File = "", "", "", "", "", nil
+			bc.runs = nil
+		}
+		tEval += time.Since(t3)
+	}
+	c.Extra["big_cases"] = len(idxs)
+	c.Extra["big_consumer_runs"] = nruns
+	c.Extra["big_consumer_runs_with_other_bytes"] = differing
+	c.Extra["big_consumer_runs_blocking_100ms"] = blocked
+	c.Extra["big_largest_output_bytes"] = maxOut
+	c.Extra["big_statements"] = sizes
+	c.Extra["big_wall_s"] = fmt.Sprintf("total %.1f: eager runs %.1f, paced runs %.1f, model and monitors %.1f", time.Since(t0).Seconds(), tEager.Seconds(), tPaced.Seconds(), tEval.Seconds())
+}
+
+// clipOutcome keeps a comparison of two outputs of several MiB exact and its record small: equal strings stay equal, different
+// ones stay different (length and digest of the whole are appended to the head).
+func clipOutcome(s string) string {
+	if len(s) <= 4000 {
+		return s
+	}
+	return fmt.Sprintf("%s… [%d bytes, sha256 %x]", s[:2000], len(s), sha256.Sum256([]byte(s)))
 }
 
 // ---------------------------------------------------------------- corpus: the golden files of the repository
